@@ -323,7 +323,7 @@ def gen_cases_stage(work, v, findings, prop, harness, acc, module, family, fn, c
     if rc != 0:
         raise Infra("case replay failed: " + out[-2000:])
     s = json.load(open(summ))
-    if s["cases"] != res["distinct"]:
+    if s["cases"] != res["distinct"] and not s.get("aborted_after_deadlocks"):
         raise Infra("%s: %d cases replayed but TLC enumerated %d" % (name, s["cases"], res["distinct"]))
     acc["states"] += res["distinct"]; acc["transitions"] += s["cases"]; acc["generated"] += res["generated"]
     acc["evaluations"] += s["cases"]; acc["traces"] += s["cases"]
@@ -358,6 +358,7 @@ def check_cases_stage(work, v, findings, prop, harness, acc, module, fn, n, dept
     rc, out, _ = lib.run(cmd, timeout=900)
     if rc != 0:
         raise Infra("treegen failed: " + out[-2000:])
+    n = json.loads(out.strip().splitlines()[-1])["cases"]
     result = work.path("randres_%s.json" % name)
     cfg = "\n".join(["SPECIFICATION Spec", "CONSTANTS", '  CASEFILE = "%s"' % casef, '  RESULT = "%s"' % result,
                      "INVARIANT Done", "CHECK_DEADLOCK FALSE", ""])
@@ -718,6 +719,20 @@ def c19(work, v, tier):
                     "DefragAsBuilt - a transcription of defrag/implode/verifyImplode - on such an input is reported as KNOWN-FINDING, any other deviation "
                     "is a VIOLATION. Random longer patterns with nested pattern stacks are classified the same way by Check_Defrag.tla",
                     gens=gens, rands=[dict(module="Check_Defrag", fn="defrag", n=3000 if q else 30000, depth=2)])
+
+
+@check("C20")
+def c20(work, v, tier):
+    q = tier == "quick"
+    gens = [dict(module="Gen_Reveal", family=f, fn="reveal", invariants=("Laws", "Emit"), timeout=3000) for f in ["chain", "wide", "alias"]]
+    return sm_check(work, v, "C20", tier, [], [], [],
+                    ["RvLaws on the WHOLE Reach set of every generated tree: identical depth-first leaf sequence (with Condition keyword / operator), depth never grows, "
+                     "parenthetical and NOT stacks survive in order, same fully-unwrapped normal form, the receiver itself is never replaced"],
+                    "Reveal against spec/Reveal.tla: the specification is the set Reach(t) of trees obtainable by the one allowed rewrite; TLC proves the laws "
+                    "for every member and emits the set; the real Reveal (run under a deadlock watchdog, mutex-enabled nodes included) must produce a member. "
+                    "Families: chains of up to three single-child levels with every kind / parenthetical / mutex / fold / symbol mix over six bottoms, at the first and at "
+                    "a later position of the parent; pairs of wrappers and Conditions holding wrappers; alias forms. Random trees of depth <= 4 are checked by Check_Reveal.tla",
+                    gens=gens, rands=[dict(module="Check_Reveal", fn="reveal", n=3000 if q else 30000, depth=3 if q else 4)])
 
 
 def replay(prop, path, work):
